@@ -627,7 +627,18 @@ func RunCheck(prop, tier string, seed int64) int {
 	for _, o := range outs {
 		results = append(results, o.results...)
 	}
-	sort.Slice(results, func(i, j int) bool { return results[i].ID < results[j].ID })
+	sort.SliceStable(results, func(i, j int) bool { return results[i].ID < results[j].ID })
+	// one result per case (a watchdog result and a regular one can race at the deadline)
+	{
+		var uniq []Result
+		for i, r := range results {
+			if i > 0 && results[i-1].ID == r.ID {
+				continue
+			}
+			uniq = append(uniq, r)
+		}
+		results = uniq
+	}
 
 	reports := map[string]bool{prop: true}
 	for _, p := range chk.Reports {
